@@ -215,10 +215,12 @@ type pageRun struct {
 	k       *kernel.Kernel
 	cl      *node.Cluster
 	stmtIDs map[string][]byte // statement text -> prepared id
-	e       *Env
-	faults  bool
-	timeout time.Duration
-	sess    *gocql.Session
+	// the session has a retry policy, each query opts out of it
+	sessionRetries bool
+	e              *Env
+	faults         bool
+	timeout        time.Duration
+	sess           *gocql.Session
 
 	scripts map[string]*pageScript
 	byState map[string]pageStateRef
@@ -967,6 +969,9 @@ func (pr *pageRun) buildQuery(sess *gocql.Session, s *pageScript) *gocql.Query {
 		q = q.WithContext(context.Background())
 	}
 	q.Consistency(s.cons)
+	if pr.sessionRetries {
+		q.RetryPolicy(nil)
+	}
 	if s.pageSizeSet {
 		q.PageSize(s.pageSize)
 	}
@@ -1536,6 +1541,14 @@ func runPage(e *Env) {
 
 	pr := &pageRun{k: k, cl: cl, e: e, faults: !e.NoFaults, timeout: timeout,
 		scripts: map[string]*pageScript{}, byState: map[string]pageStateRef{}, stackBuf: make([]byte, 64<<10)}
+	if tp.Chance(1, 3) {
+		// the session retries whatever fails, every query says "not this one"
+		// (RetryPolicy(nil)): that holds for each of its pages, so no page is asked for twice
+		cfg.RetryPolicy = pageRetrySameHost{}
+		cfg.DefaultIdempotence = true
+		pr.sessionRetries = true
+		k.Fault("page.session-retry-policy-overridden-per-query")
+	}
 	k.MaxSteps = 1500
 	k.FaultBudget = 1
 	k.FaultWeight = 1
@@ -1689,3 +1702,10 @@ func runPage(e *Env) {
 		}
 	}
 }
+
+// pageRetrySameHost is a session-level retry policy that tries a failed request again on
+// the same host, up to three attempts.
+type pageRetrySameHost struct{}
+
+func (pageRetrySameHost) Attempt(q gocql.RetryableQuery) bool { return q.Attempts() <= 2 }
+func (pageRetrySameHost) GetRetryType(error) gocql.RetryType  { return gocql.Retry }
